@@ -1,13 +1,14 @@
 """C20 — memory log holds the most recent 256 messages (tie D; kernel-only refinement proof)."""
-import os
+import os, sys
 import vlib
+sys.path.insert(0, os.path.dirname(os.path.abspath(__file__)))
 
 META = {
     'engine': 'lean-D',
-    'technique': 'Lean 4 refinement proof (invariant by induction over all call histories, incl. the counter fold at 0x7fffffff) of a hand model of mlog.c; model tied to the C by differential runs',
+    'technique': 'Lean 4 refinement proof (invariant by induction over all call histories, incl. the counter fold at 0x7fffffff) of a model of mlog.c; the model is tied to the C by translation (tools/c2lean2.py regenerates vmlog/vmlog_nice/mlog_clear/get_line/mlog_get_line/mlog_dump on every run; Props/C20Tie.lean proves them equal to the model on every state, Props/C20Gen.lean restates the property about the generated code) and by differential runs',
     'level_text': 'For every history of mlog/mlog_nice/mlog_clear/mlog_get_line(int)/mlog_dump of any length the model returns exactly the last min(n,256) messages oldest first, NULL for every other k incl. negative, '
                   'nice records iff fewer than 256 so far; the invariant is preserved by the fold of the counter so the 2^31 wrap is covered by proof, and exercised on the real code by placing the counter just below the fold.',
-    'level_note': 'Trusted: Lean kernel (standard axioms); hand model of mlog.c validated each run against the real code (harness includes mlog.c; counter set near the fold through the included static); '
+    'level_note': 'Trusted: Lean kernel (standard axioms; one bv_decide certificate axiom per *_generated* lemma of Props/C20Tie.lean, none in the C20 theorems themselves); tools/c2lean2.py + clang AST (tie T2: the static log as a 32-bit counter plus 8192 bytes of memory with the x86-64 layout of struct mlog_line, va_arg reads as inputs, strdup_printf/fprintf as the environment, mlog_dump unrolled 3 iterations; the variadic wrappers mlog/mlog_nice and the formatting are not translated); hand model of mlog.c validated each run against the real code (harness includes mlog.c; counter set near the fold through the included static); '
                   'printf formatting/va_arg are libc and not modelled (records are compared after formatting by the real code).',
     'design_ref': '§6 C20',
 }
@@ -137,7 +138,9 @@ def harness(ctx):
 
 def run(ctx):
     rng = vlib.Rng(ctx.seed)
-    ctx.prove(['Librfn.Props.C20'], REQUIRED)
+    import tie_common
+    tie_common.prove(ctx, ['MlogSeq'], ['Librfn.Props.C20'], REQUIRED, 'Librfn.Props.C20Tie', 'Librfn.C20.Tie',
+                     dependents=[('Librfn.Props.C20Gen', 'Librfn.C20.Gen')])
     exe = harness(ctx)
     nh = 40 if ctx.tier == 'quick' else 600
     hs = [gen_history(rng, ctx.tier) for _ in range(nh)]
